@@ -64,3 +64,25 @@ def build():
 
 module = build()
 env_m.os_module.path = module
+_real_commonprefix = module.commonprefix
+
+
+def commonprefix(m):
+    """genericpath.commonprefix on text ropes: the longest common *string* prefix r of the two texts, characterised for
+    the solver: r is a prefix of both, and it is maximal (one of them ends there or the next characters differ)."""
+    import z3
+    m = list(m)
+    if not any(text.istext(x) for x in m):
+        return _real_commonprefix(m)
+    if len(m) != 2:
+        raise core.Unsupported('commonprefix of %d symbolic paths' % len(m))
+    a, b = text.term_of(m[0]), text.term_of(m[1])
+    e = core.E()
+    r = z3.String('cpfx!%d' % next(e.fresh))
+    n = z3.Length(r)
+    e.add(z3.PrefixOf(r, a), z3.PrefixOf(r, b))
+    e.add(z3.Or(n == z3.Length(a), n == z3.Length(b), z3.SubString(a, n, 1) != z3.SubString(b, n, 1)))
+    return text.mk([('sym', r, dict(nosep='', nonempty=False))])
+
+
+module.commonprefix = commonprefix
